@@ -511,10 +511,20 @@ fn gen_case(rng: &mut Rng, id: String) -> Case {
                 }
             }
         }
-        // make sure the connection ends with a checked transmission from an empty flight
-        ops.push(format!("ack n=all win={}", cur_win.max(m)));
-        ops.push(format!("send {}", 3 * m));
-        ops.push("poll dt=10".into());
+        if ci + 1 < nconn && rng.chance(1, 3) {
+            // end the connection while the controller is still in fast recovery (a small flight, three
+            // duplicate ACKs, the fast retransmission, then the connection goes away)
+            ops.push(format!("ack n=all win={}", cur_win.max(m)));
+            ops.push(format!("send {}", rng.range(1, 3 * m as i64)));
+            ops.push("poll dt=10".into());
+            ops.push("dupack k=3".into());
+            ops.push("poll dt=0".into());
+        } else {
+            // make sure the connection ends with a checked transmission from an empty flight
+            ops.push(format!("ack n=all win={}", cur_win.max(m)));
+            ops.push(format!("send {}", 3 * m));
+            ops.push("poll dt=10".into());
+        }
         if ci + 1 < nconn {
             ops.push(if rng.chance(1, 2) { "rst".into() } else { "abort".into() });
         }
